@@ -409,7 +409,14 @@
                       (regexp-match-ref matches index)
                       (string-cursor>=? (regexp-match-ref matches index)
                                         (regexp-match-ref matches (- index 1)))))
-            (regexp-match-set! matches index i))))))
+            (regexp-match-set! matches index i)
+            ;; A new start of a non-greedy submatch (next iteration
+            ;; of an enclosing repetition) invalidates the end
+            ;; recorded by the previous iteration.
+            (if (and (eq? 'left (state-match-rule st))
+                     (memq (+ index 1)
+                           (rx-non-greedy-indexes (regexp-match-rx matches))))
+                (regexp-match-set! matches (+ index 1) #f)))))))
       ;; Follow transitions.
       (cond
        ((state-accept? st)
